@@ -6,6 +6,7 @@ event-loop roots, using the guards on the call paths and the production conditio
 """
 import ast
 import itertools
+import re
 
 from . import guards
 from .model import AnalysisError, is_self_attr, unparse
@@ -78,10 +79,16 @@ class Contexts:
                     guards.assume(e.d["formula"], e.pol, facts)
             sl = [e.d["value"] for e in st.events if e.kind == "assign" and e.d["target"] == "self.slotted"]
             sc = [e.d["value"] for e in st.events if e.kind == "assign" and e.d["target"] == "self.schedule"]
-            is_slotted = facts.get(("eq", "'slotted'", "self.schedule.schedule_type"))
+            slot_atoms = [v for a, v in facts.items() if a[0] == "eq" and "'slotted'" in a[1:] and any(isinstance(x, str) and x.endswith(".schedule_type") for x in a[1:])]
+            is_slotted = slot_atoms[0] if slot_atoms else None
             has_sched = [v for a, v in facts.items() if a[0] == "isinstance" and a[2].endswith("Schedule")]
             want = "True" if is_slotted else "False"
-            if len(sl) != 1 or sl[0] != want or len(sc) != 1 or (sc[0] == "None") != (not (has_sched and has_sched[0])):
+            # `self.slotted = <x>.schedule_type == 'slotted'` states the link directly
+            direct = len(sl) == 1 and re.fullmatch(r"[\w.\[\]]+\.schedule_type == 'slotted'|'slotted' == [\w.\[\]]+\.schedule_type", sl[0] or "") is not None
+            if direct and is_slotted is not None:
+                # a later `if self.slotted:` test is the same atom: nothing more to compare
+                direct = True
+            if len(sl) != 1 or (sl[0] != want and not direct) or len(sc) != 1 or (sc[0] == "None") != (not (has_sched and has_sched[0])):
                 raise AnalysisError("config: Node.__init__ no longer sets self.slotted / self.schedule from the type of number_of_servers and schedule_type == 'slotted'")
             n_ok += 1
         if n_ok < 3:
@@ -100,8 +107,8 @@ class Contexts:
         for flag in ("slotted", "schedule", "reneging", "dynamic_classes", "priority_preempt"):
             for c in P.subclasses("Node"):
                 for mn, fn in P.classes[c].methods.items():
-                    if mn == "__init__":
-                        continue
+                    if rules.effective_names(P, P.classes[c], fn) == {"__init__"}:
+                        continue        # __init__ itself, or a helper that only __init__ calls
                     for n in ast.walk(fn):
                         if isinstance(n, (ast.Assign, ast.AugAssign)):
                             ts = n.targets if isinstance(n, ast.Assign) else [n.target]
